@@ -323,6 +323,36 @@ def check(ctx):
            len(adv_t) == 1 and adv_t[0][2] == (c(1),) and done == [c(None)],
            detail=f"advance_time {[short(t, 60) for t in adv_t]}; _epoch stores {done}",
            stmt="initial epoch closed")
+    opt_apps = {}
+    for t, _, cond in rh.calls:
+        if t[0] == "call" and t[1][0] == "a" and t[1][2] == "append" and t[1][1][0] == "a" \
+                and t[1][1][1] == SELF and t[1][1][2] in ("_kernel_state_chain",
+                                                          "_quantities_chain"):
+            opt_apps[t[1][1][2]] = [(a, p_) for a, p_ in cond]
+    ctx.ob("C08.R4", hiv, "at index 0 the kernel states are stored iff requested and the "
+                          "generated quantities iff generators exist (same conditions as "
+                          "after every chunk)",
+           opt_apps == {"_kernel_state_chain": [(("a", SELF, "_store_kernel_states"), True)],
+                        "_quantities_chain": [(("a", SELF, "_quantity_generators"), True)]},
+           detail=str({k: [pretty(a)[:40] + "=" + str(p_) for a, p_ in v]
+                       for k, v in opt_apps.items()}), stmt="initial optional appends")
+    cf = method(repo, repo.cls("liesel.goose.chain.EpochChainManager"), "combine_filtered",
+                own=True)
+    rcf = evaluate(repo, cf)
+    capp = [(t, [(a, p_) for a, p_ in cond if a[0] != "inloop"]) for t, _, cond in rcf.calls
+            if t[0] == "call" and t[1][0] == "a" and t[1][2] == "append"]
+    ok_cf = False
+    if len(capp) == 1:
+        t, g = capp[0]
+        ech = ("iter", ("a", SELF, "_chains"))
+        got = ("call", ("a", ech, "get"), (), ())
+        pred = ("call", n(cf.params()[1]), (("a", ech, "epoch"),), ())
+        ok_cf = (t[2] == (("call", ("a", got, "unwrap"), (), ()),)
+                 and g == [(pred, True), (("call", ("a", got, "is_some"), (), ()), True)])
+    ctx.ob("C08.R5", cf, "combine_filtered appends the stored chunk of exactly the epochs the "
+                         "predicate selects (skipping only epochs without samples)", ok_cf,
+           detail=str([[pretty(a)[:50] + "=" + str(p_) for a, p_ in g] for _, g in capp]),
+           stmt="combine_filtered guard")
     atd = repo.func("liesel.goose.engine._add_time_dimension")
     rat = evaluate(repo, atd).ret()
     ok = (rat is not None and is_call(rat, "jax.tree_util.tree_map") and rat[2][0][0] == "lambda"
